@@ -528,3 +528,73 @@ def r11(ctx):
 def r12(ctx):
     from rules.common import blocking_receives_only
     blocking_receives_only(ctx, ctx.body(T + 'train_bpe').path, 'train_bpe')
+
+
+def _lower_bound(t, depth=0):
+    """a lower bound of an unsigned expression tree, None when the tree has a node this does not understand"""
+    t = core(t) if isinstance(t, tuple) else t
+    if depth > 12 or not isinstance(t, tuple) or not t:
+        return None
+    if t[0] == 'const':
+        try:
+            return t[2] if len(t) > 2 and isinstance(t[2], int) else None
+        except (TypeError, ValueError):
+            return None
+    if t[0] == 'call' and t[2]:
+        nm = t[1].rsplit('::', 1)[-1]
+        a = [_lower_bound(x, depth + 1) for x in t[2]]
+        if nm == 'max' and len(a) == 2:
+            k = [x for x in a if x is not None]
+            return max(k) if k else None
+        if nm == 'min' and len(a) == 2:
+            return None if None in a else min(a)
+        if nm in ('len', 'count'):
+            return 0
+        return None
+    if t[0] == 'bin' and len(t) >= 4:
+        a, b_ = _lower_bound(t[2], depth + 1), _lower_bound(t[3], depth + 1)
+        op = str(t[1]).lower()
+        if op.startswith('div') or op.startswith('rem') or op.startswith('shr'):
+            return 0
+        if op.startswith('add'):
+            return None if None in (a, b_) else a + b_
+        if op.startswith('mul'):
+            return None if None in (a, b_) else a * b_
+        if op.startswith('sub'):
+            return 0
+        return None
+    if t[0] in ('arg', 'var', 'upvar', 'field'):
+        return 0
+    if t[0] == 'cast' and len(t) >= 2:
+        return _lower_bound(t[1], depth + 1)
+    return None
+
+
+@rule('C19', 'R-C19-16', 'T4 GUARD (a worker turn pulls at least one line)',
+      'when the counting workers of train_bpe pull several lines per turn (`take(n)` on the shared line iterator) and treat an empty pull as the '
+      'end of the corpus, n is at least 1 by construction (a positive constant, `.max(1)`): a share computed by division (`lines / threads`) is 0 '
+      'for a corpus with fewer lines than threads, every worker leaves at once and an empty merge table is written')
+def r16(ctx):
+    from rules.common import resolve_upvars, closures_in
+    b = ctx.body(T + 'train_bpe')
+    sp = [t for t in b.calls(r'thread::Builder::spawn$|thread::spawn$')]
+    if len(sp) != 1:
+        raise AnchorMissing('worker spawn in train_bpe')
+    w = closure_of(ctx, sym(b, sp[0].args[-1]))
+    n = 0
+    for x in [w] + closures_in(ctx, w):
+        for t in x.calls(r'Iterator::take$'):
+            recv = init_value(x, sym(x, t.args[0]))
+            if not any(isinstance(y, tuple) and y and y[0] == 'call' and y[1].endswith('Mutex::lock') for y in walk(recv)):
+                continue      # not a pull from the shared (locked) line iterator
+            n += 1
+            v = resolve_upvars(ctx, x, init_value(x, sym(x, t.args[1])))
+            if b is not None:
+                v = init_value(b, v)
+            lb = _lower_bound(v)
+            if lb is None:
+                raise AnchorMissing('the number of lines a worker pulls per turn (line %d) is %s' % (t.span['line'], show_in(b, v)[:120]))
+            ctx.require(lb >= 1, x, 'batch-at-least-one', 'a worker turn pulls at least %d line(s) (line %d)' % (lb, t.span['line']),
+                        'a worker turn pulls `take(%s)` lines (line %d), which is 0 for some corpus / thread count: the workers take the empty pull for the '
+                        'end of the corpus and nothing is counted' % (show_in(b, v)[:120], t.span['line']), t.span)
+    ctx.ok(w, '%d bulk pull(s) in the counting workers inspected' % n)
